@@ -86,6 +86,8 @@ def oracle_(iw, h, res, hl, names0, s0):
     got['domains'] = [[str(c.get_domain((si, di))) for di in range(len(row))] for si, row in enumerate(pt)]
     want['paired'] = pt
     got['paired'] = [[c.get_paired_loc((si, di)) for di in range(len(row))] for si, row in enumerate(pt)]
+    want['domain_set'] = sorted(set(seq) - {'+'})
+    got['domain_set'] = sorted(str(x) for x in c.domains)
     rr = ref.rotations(seq, sst)
     want['rotate'] = rr
     got['rotate'] = [(tuple(map(str, a)), tuple(b)) for a, b in c.rotate()]
